@@ -5,25 +5,30 @@ use super::hostname::lex_hostname;
 use crate::TokenKind;
 
 pub fn lex_email_address(source: &[char]) -> Option<FoundToken> {
-    // Location of the @ sign
-    let (at_loc, _) = source.iter().enumerate().rev().find(|(_, c)| **c == '@')?;
+    // Location of the @ sign: the last one that closes a valid local part. (Later `@`s in the
+    // text belong to something else.)
+    for (at_loc, _) in source.iter().enumerate().rev().filter(|(_, c)| **c == '@') {
+        let local_part = &source[0..at_loc];
 
-    let local_part = &source[0..at_loc];
+        if !validate_local_part(local_part) {
+            continue;
+        }
 
-    if !validate_local_part(local_part) {
-        return None;
+        let Some(domain_part_len) = lex_hostname(&source[at_loc + 1..]) else {
+            continue;
+        };
+
+        if domain_part_len == 0 {
+            continue;
+        }
+
+        return Some(FoundToken {
+            next_index: at_loc + 1 + domain_part_len,
+            token: TokenKind::EmailAddress,
+        });
     }
 
-    let domain_part_len = lex_hostname(&source[at_loc + 1..])?;
-
-    if domain_part_len == 0 {
-        return None;
-    }
-
-    Some(FoundToken {
-        next_index: at_loc + 1 + domain_part_len,
-        token: TokenKind::EmailAddress,
-    })
+    None
 }
 
 /// Check to see if a given slice is a valid local part of an email address.
